@@ -201,6 +201,9 @@ func Generate(p *Profile, seed uint64) *Scenario {
 	if sw.Pct(20) {
 		pCache = 0
 	}
+	if sw.Pct(12) {
+		sc.OddHashes = true
+	}
 	if sw.Pct(20) {
 		// leaf hashes that come back: an added leaf may repeat the hash of a leaf
 		// deleted by the same block or earlier (never of a live one)
